@@ -864,6 +864,14 @@ func ruleC02Lower(e *Env) {
 				}
 			}
 		}
+		// … and the loop runs over the whole buffer: no re-slice of it with an upper bound (`range buf[:m]`)
+		for _, b := range fn.Blocks {
+			for _, in := range b.Instrs {
+				if sl, ok := in.(*ssa.Slice); ok && sl.High != nil && flow.RootParam(sl.X) == fn.Params[0] {
+					stray = "the buffer is re-sliced with an upper bound (" + e.posOf(sl) + "): the elements behind it are not visited"
+				}
+			}
+		}
 		if stray != "" {
 			e.S.Unk(rule, site, "every element", "toLower is evaluated on a one-element slice; whether later elements are treated alike is not read: "+stray, e.Pos(fn))
 		} else {
